@@ -177,12 +177,14 @@ def facts(repo, chk):
     chk.ob('FACTS', fi, first, 'an empty network becomes one column {symbol: score} per symbol', ok, construct='empty network')
     # epsilon weight of a new column = mean column total of the network BEFORE the addition
     loop = [l for l in find_loops(fi.node) if isinstance(l.iter, ast.Name)][-1]
-    tot = [s for s in fi.node.body if isinstance(s, ast.Assign) and 'sum(' in src(s.value) and '.values()' in src(s.value)]
-    ok = bool(tot) and tot[0].lineno < loop.lineno and ' / len(%s)' % cn in ' '.join(src(tot[0].value).split()) and ' in %s)' % cn in ' '.join(src(tot[0].value).split())
+    tot = [s for s in walk_shallow(fi.node) if isinstance(s, ast.Assign) and 'sum(' in src(s.value) and '.values()' in src(s.value)
+           and not any(x is s for x in ast.walk(loop))]
+    ok = bool(tot) and fi.cfg.must_pass(fi.cfg.node_of(loop), [fi.cfg.node_of(tot[0])], skip_exc=True) and ' / len(%s)' % cn in ' '.join(src(tot[0].value).split()) and ' in %s)' % cn in ' '.join(src(tot[0].value).split())
     chk.ob('FACTS', fi, tot[0] if tot else fi.node, 'epsilon weight of inserted columns = mean column total measured before any update', ok,
            construct='cn_total_weight')
     rets = [s for s in walk_shallow(fi.node) if isinstance(s, ast.Return)]
-    early = [r for r in rets if not any(x is r for x in ast.walk(first)) and r.lineno < loop.lineno]
+    early = [r for r in rets if not any(x is r for x in ast.walk(ast.Module(body=first.body, type_ignores=[]))) and
+             fi.cfg.node_of(loop) not in fi.cfg.reach_back([fi.cfg.node_of(r)]) and not any(x is r for x in ast.walk(loop))]
     chk.ob('FACTS', fi, early[0] if early else rets[-1], 'nothing but the empty-network case returns before the alignment is applied (an empty hypothesis still adds its weight to every column)', not early,
            construct='no early return')
     ok = all(isinstance(r.value, ast.Name) and r.value.id == cn for r in rets)
